@@ -43,6 +43,10 @@ Judge(c) ==
   ELSE IF isInstr /\ enabled /\ (c.sk.variant = 1) # (skVariant /\ isInstr) THEN "sk:variant"
   ELSE IF isInstr /\ c.sk.texc # "" THEN "timing:exception"
   ELSE IF isInstr /\ SeqToSet(c.sk.timing) # TimingSet(c) THEN "timing:value"
+  \* a data statement (DEFB ...) has no timing, and asking for it is not an error
+  ELSE IF ~isInstr /\ (c.sk.texc # "" \/ c.sk.timing # <<>>) THEN "timing:data-statement"
+  \* the timing of a statement does not depend on the case it is written in (sna2skool -l)
+  ELSE IF c.sk.ltexc # c.sk.texc \/ c.sk.ltiming # c.sk.timing THEN "timing:lower-case"
   ELSE "ok"
 
 Init == tid \in 1..Len(Cases) /\ verdict = "pending"
